@@ -3,7 +3,10 @@ import St4sd.Model.Convert
 # `FlowIRConcrete.get_component_variables` / `get_component_configuration` (C04)
 
 Model of flowir.py 5626-5671 and 5883-5977 for the observed call
-`get_component_configuration(comp, raw=False, include_default=True, platform=P, is_primitive=prim)`.
+`get_component_configuration(comp, raw=False, include_default=True, platform=P, is_primitive=prim)`
+(`resolveComp` / `resolve`) and for every other combination of the keyword arguments `raw`,
+`include_default`, `is_primitive`, `inject_missing_fields` (`Flags`, `resolveCompF` / `resolveF`; e.g.
+`instance()` asks `raw=True, include_default=False` with or without the built-in defaults).
 
 The description (`Desc`) is the part of `FlowIRConcrete._flowir` the resolver reads: the platform list,
 the blueprints `blueprint[P].global / .stages[i]`, the variables `variables[P].global / .stages[i]` and the
